@@ -49,7 +49,8 @@ Inductive result := Ok (p : fpos) | Err (e : N) | Panic.
     6  :1020 "not reached last square (h1)"               7  :1024 "needs exactly one king of each color"
     8  :1038 next player                                  9  :1057 castling rights
     10 :1082 en passant (regex)                           11 :1087 en passant not on rank 3 or 6
-    12 :1115 half move clock (Atoi error)                 13 :1128 move number (Atoi error)
+    12 :1115 half move clock (Atoi error)                 13 :1134 move number (Atoi error)
+    16 :1108 "half move clock must not be negative"       17 :1124 "move number is out of range"
     15 :1100 "en passant square does not fit the position"
     14 :1135 "the side not to move is in check" *)
 
@@ -293,21 +294,28 @@ Definition ep_field (o : option str) (side : N) (b : list N) : eres :=
               end
   end.
 
-(* :1096-1102 *)
-Definition hmc_field (o : option str) : option Z :=
+(* half move clock, :1105-1117: Atoi error (12), negative (16) *)
+Definition hmc_field (o : option str) : N + Z :=
   match o with
-  | None => Some 0%Z
-  | Some s => atoi s
+  | None => inr 0%Z
+  | Some s => match atoi s with
+              | None => inl 12
+              | Some v => if (v <? 0)%Z then inl 16 else inr v
+              end
   end.
 
-(* :1105-1115 ; [nhm0] is the value set at :1029 / :1048 *)
-Definition mn_field (o : option str) (side : N) (nhm0 : Z) : option Z :=
+(* move number, :1119-1135 ; [nhm0] is the value set at :1029 / :1048.  With 1 <= m' <= 10^6
+   the expression 2*m' - (1 - nextPlayer) cannot leave the int range: no wrap-around *)
+Definition max_move_number : Z := 1000000%Z.
+Definition mn_field (o : option str) (side : N) (nhm0 : Z) : N + Z :=
   match o with
-  | None => Some nhm0
+  | None => inr nhm0
   | Some s => match atoi s with
-              | None => None
-              | Some m => let m' := if (m =? 0)%Z then 1%Z else m in                (* :1108-1110 *)
-                          Some (wrap64 (2 * m' - (1 - Z.of_N side)))               (* :1111 *)
+              | None => inl 13
+              | Some m =>
+                  if (m <? 0)%Z || (max_move_number <? m)%Z then inl 17       (* :1123-1126 *)
+                  else let m' := if (m =? 0)%Z then 1%Z else m in           (* :1127-1129 *)
+                       inr (2 * m' - (1 - Z.of_N side))%Z                   (* :1130 *)
               end
   end.
 
@@ -324,11 +332,11 @@ Definition setup_rest (b : list N) (parts : list str) : result :=
           | EErr e => Err e
           | EOk ep =>
               match hmc_field (nth_error parts 4) with
-              | None => Err 12
-              | Some hmc =>
+              | inl e => Err e
+              | inr hmc =>
                   match mn_field (nth_error parts 5) side nhm0 with
-                  | None => Err 13
-                  | Some nhm =>
+                  | inl e => Err e
+                  | inr nhm =>
                       (* :1134-1138 IsAttacked(kingSquare[them], us).  kingSquare[c] is the square
                          of the (only) king of colour c; IsAttacked = Oracle.is_attacked_spec
                          (AttacksProofs.is_attacked_exact_wf) *)
@@ -436,19 +444,10 @@ Definition fpos_wf (p : fpos) : bool :=
   && Nat.eqb (count_code (f_board p) 1) 1 && Nat.eqb (count_code (f_board p) 9) 1
   && (f_side p <? 2) && (f_cr p <? 16)
   && ep_wf p
-  && in_int64 (f_hmc p) && in_int64 (f_nhm p)
+  && (0 <=? f_hmc p)%Z && (f_hmc p <? two63)%Z
+  && (1 <=? f_nhm p)%Z && (f_nhm p <=? 2 * max_move_number)%Z
   && ((f_nhm p + Z.of_N (f_side p)) mod 2 =? 1)%Z     (* White: odd ply number, Black: even *)
   && not_in_check p.
-
-(* what a second pass through fen() and setupBoard makes of nextHalfMoveNumber *)
-Definition renorm (p : fpos) : fpos :=
-  let m := move_number (f_nhm p) in
-  let m' := if (m =? 0)%Z then 1%Z else m in
-  mkfpos (f_board p) (f_side p) (f_cr p) (f_ep p) (f_hmc p) (wrap64 (2 * m' - (1 - Z.of_N (f_side p)))).
-
-(* exactly when the printed move number reproduces nextHalfMoveNumber *)
-Definition reparse_guard (p : fpos) : bool :=
-  if f_side p =? 0 then negb (f_nhm p =? -1)%Z else (0 <? f_nhm p)%Z.
 
 (** ** executable checkers for the correspondence run *)
 Definition fpos_eqb (a b : fpos) : bool :=
